@@ -46,6 +46,8 @@ pub enum Op {
     Drain,
     /// peer restates its delivery-count in a flow
     PeerFlow,
+    /// the same, also stating how many messages it has available
+    PeerFlowAvail(u32),
 }
 
 #[derive(Clone, Debug, Serialize, Deserialize, Hash)]
@@ -69,6 +71,7 @@ fn op() -> BoxedStrategy<Op> {
         2 => prop_oneof![Just(0u32), Just(1), Just(2), 3u32..12].prop_map(Op::SetCredit),
         1 => Just(Op::Drain),
         1 => Just(Op::PeerFlow),
+        1 => prop_oneof![Just(0u32), Just(1), Just(7), Just(1000), Just(u32::MAX), any::<u32>()].prop_map(Op::PeerFlowAvail),
     ]
     .boxed()
 }
@@ -386,8 +389,8 @@ pub async fn run_async(c: &Case, on_take_open: bool, excluded: &std::cell::Cell<
                 // (if credit was outstanding the peer simply keeps it: an unanswered drain is legal for a
                 // sender that still has messages)
             }
-            Op::PeerFlow => {
-                let body = Peer::flow_body(
+            Op::PeerFlow | Op::PeerFlowAvail(_) => {
+                let mut body = Peer::flow_body(
                     Some(cfg.ep_next_outgoing_id),
                     100_000,
                     cfg.peer_next_outgoing_id.wrapping_add(frames_sent as u32),
@@ -398,6 +401,14 @@ pub async fn run_async(c: &Case, on_take_open: bool, excluded: &std::cell::Cell<
                     false,
                     false,
                 );
+                if let (Op::PeerFlowAvail(av), RValue::Described(_, l)) = (op, &mut body) {
+                    if let RValue::List(f) = &mut **l {
+                        while f.len() < 8 {
+                            f.push(RValue::Null);
+                        }
+                        f[7] = RValue::Uint(*av);
+                    }
+                }
                 if received == arrived || !on_take_open {
                     // while KF-receiver-accounting-on-take is open: only restate the count when nothing is buffered
                     peer.send_frame(my_ch, &body, &[]).await?;
